@@ -495,11 +495,11 @@ func c15Reader(c *Ctx) {
 		return
 	}
 	nonNilReader := func(in ssa.Instruction) bool {
-		ret, ok := in.(*ssa.Return)
+		ret, ok := core.AsReturn(in)
 		if !ok || len(ret.Results) != 2 {
 			return false
 		}
-		return !core.IsNilConst(core.ResolveLocalLoad(ret.Results[0]))
+		return !core.IsNilConst(core.ResolveLocalLoad(core.Res(ret, 0)))
 	}
 	g1, n1 := core.CondEdges(fn, func(at core.Atom) (bool, bool) {
 		if at.Op != token.EQL && at.Op != token.NEQ {
@@ -593,8 +593,8 @@ func c15Parser(c *Ctx) {
 		retHTML := n == 1
 		for e := range edges {
 			tb := e.From.Succs[e.Succ]
-			ret, isRet := tb.Instrs[len(tb.Instrs)-1].(*ssa.Return)
-			if !isRet || len(ret.Results) != 2 || core.IsNilConst(ret.Results[1]) {
+			ret, isRet := core.AsReturn(tb.Instrs[len(tb.Instrs)-1])
+			if !isRet || len(ret.Results) != 2 || core.IsNilConst(core.Res(ret, 1)) {
 				retHTML = false
 			}
 		}
@@ -863,7 +863,7 @@ func parserReportsReadError(c *Ctx, rule string) {
 	ok, why := true, ""
 	nRet := 0
 	for _, b := range pf.Blocks {
-		ret, isRet := b.Instrs[len(b.Instrs)-1].(*ssa.Return)
+		ret, isRet := core.AsReturn(b.Instrs[len(b.Instrs)-1])
 		if !isRet || len(ret.Results) != 2 || !serr.Block().Dominates(b) {
 			continue
 		}
@@ -888,7 +888,7 @@ func parserReportsReadError(c *Ctx, rule string) {
 			}
 			return []ssa.Value{v}
 		}
-		for _, l := range leaves(ret.Results[1], 0) {
+		for _, l := range leaves(core.Res(ret, 1), 0) {
 			if l != ssa.Value(serr) {
 				ok, why = false, "after the scan the returned error can be something other than the scanner's error (e.g. nil for a particular kind of read error)"
 			}
